@@ -1,11 +1,11 @@
 package rules
 
 import (
-	"strings"
 	"go/constant"
 	"go/token"
 	"go/types"
 	"sort"
+	"strings"
 
 	"golang.org/x/tools/go/ssa"
 
@@ -18,18 +18,18 @@ import (
 // code are obligations of their own (below).
 var c15DivInventory = map[string]c15Entry{
 	"(*chain/consensus.ForkManager).needSwitchFork#div(call TwoThirdDeputyCount)": {1, "newHead was accepted before UpdateFork runs: verifySigner found its signer among the deputies of its own height, so that list is not empty and the threshold is ≥ 1"},
-	"chain/consensus.GetCorrectMiner#div(expr)":                                  {1, "nodeCount × mineTimeout: nodeCount = deputies(parent.Height+1) is not empty because verifySigner (signer is a deputy of the block's height) and verifyHeight (height = parent+1) are heeded before verifyMiner — premise obligation verifySigner,verifyHeight≺verifyMiner; the miner's own call passes its own height; mineTimeout see below"},
-	"chain/consensus.GetCorrectMiner#div(param mineTimeout)":                     {1, "node configuration (Validator.mineTimeout / Miner timeout), validated at start-up; not taken from a message"},
-	"(*chain/transaction.CandidateVoteEnv).refundDeposit#div(var TermDuration)":  {1, whyTermDuration},
-	"chain/deputynode.GetDeputyTermIndexByHeight#div(var TermDuration)":          {1, whyTermDuration},
-	"chain/deputynode.GetLastSnapshotHeight#div(var TermDuration)":               {1, whyTermDuration},
-	"chain/deputynode.GetSignerTermIndexByHeight#div(var TermDuration)":          {1, whyTermDuration},
-	"chain/deputynode.IsRewardBlock#div(var TermDuration)":                       {1, whyTermDuration},
-	"chain/deputynode.IsSnapshotBlock#div(var TermDuration)":                     {1, whyTermDuration},
-	"chain/deputynode.NewTermRecord#div(var TermDuration)":                       {2, whyTermDuration},
-	"common/crypto.AesDecrypt#div(call BlockSize)":                               {1, "cipher.Block.BlockSize of an AES cipher is the constant 16"},
-	"common/crypto.PKCS5Padding#div(param blockSize)":                            {1, "callers pass block.BlockSize() of an AES cipher (16)"},
-	"common/crypto/ecies.concatKDF#div(expr)":                                    {1, "hash.BlockSize() × 8 of the curve's hash (sha256: 64)"},
+	"chain/consensus.GetCorrectMiner#div(expr)":                                   {1, "nodeCount × mineTimeout: nodeCount = deputies(parent.Height+1) is not empty because verifySigner (signer is a deputy of the block's height) and verifyHeight (height = parent+1) are heeded before verifyMiner — premise obligation verifySigner,verifyHeight≺verifyMiner; the miner's own call passes its own height; mineTimeout see below"},
+	"chain/consensus.GetCorrectMiner#div(param mineTimeout)":                      {1, "node configuration (Validator.mineTimeout / Miner timeout), validated at start-up; not taken from a message"},
+	"(*chain/transaction.CandidateVoteEnv).refundDeposit#div(var TermDuration)":   {1, whyTermDuration},
+	"chain/deputynode.GetDeputyTermIndexByHeight#div(var TermDuration)":           {1, whyTermDuration},
+	"chain/deputynode.GetLastSnapshotHeight#div(var TermDuration)":                {1, whyTermDuration},
+	"chain/deputynode.GetSignerTermIndexByHeight#div(var TermDuration)":           {1, whyTermDuration},
+	"chain/deputynode.IsRewardBlock#div(var TermDuration)":                        {1, whyTermDuration},
+	"chain/deputynode.IsSnapshotBlock#div(var TermDuration)":                      {1, whyTermDuration},
+	"chain/deputynode.NewTermRecord#div(var TermDuration)":                        {2, whyTermDuration},
+	"common/crypto.AesDecrypt#div(call BlockSize)":                                {1, "cipher.Block.BlockSize of an AES cipher is the constant 16"},
+	"common/crypto.PKCS5Padding#div(param blockSize)":                             {1, "callers pass block.BlockSize() of an AES cipher (16)"},
+	"common/crypto/ecies.concatKDF#div(expr)":                                     {1, "hash.BlockSize() × 8 of the curve's hash (sha256: 64)"},
 }
 
 const whyTermDuration = "params.TermDuration is a protocol parameter (1000000), assigned by the package initialiser and, under a `> 0` test, by the node configuration — premise obligation: no other store in shipped code"
